@@ -1,8 +1,8 @@
 /-
 Props/C19.lean — show() draws each object where it is (placement and unit parts).
-(Audit: the placement theorems are about the function `place` defined BELOW in this file — the formula `(R·v·scale + p)·f` read off
-`place_and_orient_model3d`; it is not a Model/ function, the driver does not run it and no stream ties it to the real function: display
-oracle only.)  For that formula: it maps every model vertex `v` to `(R·v·scale + p)·f`, i.e. the
+The placement theorems are about `Display.place` (Model/Display.lean), the vertex map of `Display.placeModel` = `place_and_orient_model3d`;
+the driver family `disp` executes `placeModel` and the `disp` stream compares it with the real function (dicts and args tuples, coordsargs,
+scale, length factor, early return, inputs unchanged) on dyadic data.  For that formula: it maps every model vertex `v` to `(R·v·scale + p)·f`, i.e. the
 object's pose at the displayed path index followed by the announced unit factor, and a local
 vertex on the body's surface lands on the posed surface; the unit factor table regenerated from
 `_UNIT_PREFIX`/`get_unit_factor` satisfies factor · 10^power = 1 for every prefix.
@@ -27,8 +27,15 @@ open MagpyVerif.Gen
 
 variable {G V K : Type} [Group G] [AddCommGroup V] [DistribMulAction G V] [Field K] [Module K V] [SMulCommClass G K V]
 
-/-- `(orientation.apply(v) * scale + position) * length_factor` -/
-def place (R : G) (p : V) (scale f : K) (v : V) : V := f • (scale • (R • v) + p)
+open MagpyVerif.Display (place placeOpt)
+
+/-- the optional arguments: with an orientation and a position `placeOpt` (what `placeModel` applies to every vertex) is
+`place`; `position=None` is the origin; `orientation=None` is no rotation -/
+theorem placeOpt_eq_place (R : G) (p v : V) (s f : K) :
+    placeOpt (some R) (some p) s f v = place R p s f v ∧
+    placeOpt (some R) none s f v = place R 0 s f v ∧
+    placeOpt (none : Option G) (some p) s f v = place (1 : G) p s f v := by
+  simp [placeOpt, place]
 
 /-- placement is the pose followed by the unit factor: with scale 1 a local-frame point `v` is
 drawn at `f • (R • v + p)` -/
@@ -47,6 +54,80 @@ theorem place_preserves_extent (R : G) (p v w : V) (s f : K) :
     place R p s f v - place R p s f w = f • s • R • (v - w) := by
   simp only [place, smul_sub, smul_add]
   abel
+
+/-! ### `placeModel` = place_and_orient_model3d as a whole (Model/Display.lean; driver `disp place`, `disp` stream) -/
+section placeModel
+open MagpyVerif MagpyVerif.Display
+variable {α : Type} [Add α] [Mul α] [OfNat α 0] [OfNat α 1] [BEq α]
+
+/-- the early return: without orientation, position and with `length_factor == 1` nothing is transformed — the dict is
+`{**model_kwargs, **kwargs}`, args and coordsargs are the caller's — WHATEVER `scale` is (the code does not look at it) -/
+theorem placeModel_early_return (a : PlaceIn α) (ho : a.orientation = none) (hp : a.position = none)
+    (hf : (a.lengthFactor == 1) = true) :
+    placeModel a = .ok { kwargs := dictUpdate a.kwargs a.extra, args := a.args, coordsargs := a.coordsargs } := by
+  simp [placeModel, ho, hp, hf]
+
+/-- a plain `x / y / z` trace (any other entries `rest` behind them, no args, default coordsargs, no extra kwargs) with a
+pose: every vertex `(x_i, y_i, z_i)` is replaced by `place R p scale f` of it — the function of `place_is_pose`,
+`place_inverse`, `place_preserves_extent` — the array shape is kept, and every other entry is returned as it is -/
+theorem placeModel_vertices (R : M3 α) (p : V3 α) (scale f : α) (s : List Nat) (dx dy dz : List α)
+    (rest : List (String × TVal α)) (hrest : ∀ kv ∈ rest, kv.1 ≠ "x" ∧ kv.1 ≠ "y" ∧ kv.1 ≠ "z") :
+    placeModel { kwargs := [("x", .arr s dx), ("y", .arr s dy), ("z", .arr s dz)] ++ rest, args := none,
+                 orientation := some R, position := some p, coordsargs := none, scale := scale, lengthFactor := f,
+                 extra := [] } =
+      let pts := (dx.zip (dy.zip dz)).map fun (x, y, z) => place R p scale f (⟨x, y, z⟩ : V3 α)
+      .ok { kwargs := [("x", .arr s (pts.map (·.x))), ("y", .arr s (pts.map (·.y))), ("z", .arr s (pts.map (·.z)))] ++ rest,
+            args := some [], coordsargs := some (.key "x", .key "y", .key "z") } := by
+  have hmap : ∀ (l : List (String × TVal α)) (k : String) (v : TVal α), (∀ kv ∈ l, kv.1 ≠ k) →
+      l.map (fun kv => if (kv.1 == k) = true then (k, v) else kv) = l := by
+    intro l k v h
+    induction l with
+    | nil => rfl
+    | cons a l ih =>
+      have h1 : a.1 ≠ k := h a (List.mem_cons_self ..)
+      rw [List.map_cons, ih (fun kv hk => h kv (List.mem_cons_of_mem _ hk))]
+      simp [h1]
+  -- `d[k] = v` when the first entry is `k` and no later one is
+  have hit : ∀ (t : List (String × TVal α)) (k : String) (v0 v : TVal α), (∀ kv ∈ t, kv.1 ≠ k) →
+      dictSet ((k, v0) :: t) k v = (k, v) :: t := by
+    intro t k v0 v h
+    simp only [dictSet, List.any_cons, beq_self_eq_true, Bool.true_or, if_true, List.map_cons]
+    rw [hmap t k v h]
+  -- `d[k] = v` passes an entry with another key when `k` occurs behind it
+  have miss : ∀ (t : List (String × TVal α)) (k k' : String) (v v' : TVal α), k' ≠ k →
+      t.any (·.1 == k) = true → dictSet ((k', v') :: t) k v = (k', v') :: dictSet t k v := by
+    intro t k k' v v' hne hany
+    simp [dictSet, hany, hne]
+  have hx : ∀ kv ∈ ("y", TVal.arr s dy) :: ("z", TVal.arr s dz) :: rest, kv.1 ≠ "x" := by
+    intro kv h
+    rcases List.mem_cons.mp h with rfl | h
+    · show ("y" : String) ≠ "x"; decide
+    rcases List.mem_cons.mp h with rfl | h
+    · show ("z" : String) ≠ "x"; decide
+    · exact (hrest kv h).1
+  have hy : ∀ (c : TVal α), ∀ kv ∈ ("z", c) :: rest, kv.1 ≠ "y" := by
+    intro c kv h
+    rcases List.mem_cons.mp h with rfl | h
+    · show ("z" : String) ≠ "y"; decide
+    · exact (hrest kv h).2.1
+  have hinner : ∀ nx ny nz : TVal α, dictSet (dictSet (dictSet [] "x" nx) "y" ny) "z" nz =
+      [("x", nx), ("y", ny), ("z", nz)] := by
+    intro nx ny nz
+    simp [dictSet]
+  simp only [placeModel, Option.isNone_some, Bool.false_and, Bool.false_eq_true, if_false, resolveCoords,
+    Option.getD_none, List.isEmpty_nil, if_true, fetchCoord, List.cons_append, List.nil_append, List.lookup_cons_self]
+  have ly : List.lookup "y" (("x", TVal.arr s dx) :: ("y", TVal.arr s dy) :: ("z", TVal.arr s dz) :: rest) =
+      some (TVal.arr s dy) := by simp [List.lookup]
+  have lz : List.lookup "z" (("x", TVal.arr s dx) :: ("y", TVal.arr s dy) :: ("z", TVal.arr s dz) :: rest) =
+      some (TVal.arr s dz) := by simp [List.lookup]
+  simp only [ly, lz, bne_self_eq_false, Bool.or_self, Bool.false_eq_true, if_false, hinner, dictUpdate,
+    List.foldl_cons, List.foldl_nil]
+  rw [hit _ "x" _ _ hx]
+  rw [miss _ "y" "x" _ _ (by decide) (by simp), hit _ "y" _ _ (hy _)]
+  rw [miss _ "z" "x" _ _ (by decide) (by simp), miss _ "z" "y" _ _ (by decide) (by simp),
+    hit _ "z" _ _ (fun kv h => (hrest kv h).2.2)]
+  simp [placeOpt, place]
+end placeModel
 
 /-- every SI prefix (and d, c): lengths in metres times the factor are numbers in the announced
 unit: factor('<prefix>m' → 'm') = 10^(−power of the prefix), over the whole generated table -/
@@ -710,6 +791,7 @@ vertex theorems that had none) -/
 
 namespace MagpyVerif.C19
 open MagpyVerif.DisplayTrig
+open MagpyVerif.Display (place placeOpt)
 
 -- non-vacuity of the algebraic context of `place_*`: invertible linear maps of ℝ³ acting on ℝ³, unit factor in ℝ
 example (R : (Fin 3 → ℝ) ≃ₗ[ℝ] (Fin 3 → ℝ)) (p v : Fin 3 → ℝ) (f : ℝ) (hf : f ≠ 0) :
